@@ -268,7 +268,7 @@ LockExpried(mm, e, r, k) ==
                 \* grant from the queue, from the stamp of its SUCCED reply, which is taken a little after the timer
                 \* started (50 ms measurement tolerance); judged only
                 \* when the terms are certainly those of one request (no update that may have been ignored)
-                m1 == Check(m0, ~h.ms \/ Cardinality(h.rids) # 1 \/ Ms(e) - h.gms >= h.exms - h.slack, "C06", "expired-early-ms", e,
+                m1 == Check(m0, ~h.ms \/ Cardinality(h.rids) # 1 \/ Ms(e) - h.gms >= h.exms - h.slack - (IF h.exms >= 3000 THEN 1000 ELSE 0), "C06", "expired-early-ms", e,
                             [rid |-> r.id, lid |-> h.lid, after_ms |-> Ms(e) - h.gms, expried_ms |-> h.exms])
                 m2 == Check(m1, h.lo < INF, "C06", "unlimited-hold-expired", e, [rid |-> r.id, lid |-> h.lid])
                 \* C10: a node that is not the leader does not end a replicated (persisted) hold on its own clock
@@ -282,7 +282,9 @@ LockTimeout(mm, e, r, k) ==
     LET m1 == IF r.st = "queued"
               THEN LET ma == Check(mm, Bit(r.tf, TF_MS) \/ e.t - r.tq >= TimeoutS(r), "C05", "timeout-early", e,
                                    [rid |-> r.id, waited |-> e.t - r.tq, timeout |-> TimeoutS(r)])
-                   IN Check(ma, ~Bit(r.tf, TF_MS) \/ Ms(e) - r.ms >= r.to - 1, "C05", "timeout-early-ms", e,
+                   \* (a millisecond term of 3 s and more is handed to the second ring and kept in SERVER seconds; the server's
+                      \*  second counter is written once a second and can lag the wall clock by up to a second on a busy machine)
+                      IN Check(ma, ~Bit(r.tf, TF_MS) \/ Ms(e) - r.ms >= r.to - 1 - (IF r.to >= 3000 THEN 1000 ELSE 0), "C05", "timeout-early-ms", e,
                             [rid |-> r.id, waited_ms |-> Ms(e) - r.ms, timeout_ms |-> r.to])
               ELSE mm
         \* "... unless it is granted or cancelled first": a request that already has its answer draws no TIMEOUT
